@@ -376,6 +376,10 @@ def run_property(ctx, prop, n_quick, n_thorough, extra=None, assumptions=None, e
     if prop in ("C05", "C02", "C13"):
         # > 1024 inserts on one store: the memory backend's order-log compaction
         hs += [G.gen_long_history(rng) for _ in range(1 if ctx.tier == "quick" else 4)]
+    if prop in ("C05", "C03") and ctx.tier != "quick":
+        # hundreds of leases running out at once, re-offered by dequeues a millisecond apart, against the model (minutes of evaluation:
+        # thorough tier; the quick tier has the closed-form probe bulk-ready of props/c05.py)
+        hs += [G.gen_bulk_expiry(rng) for _ in range(2)]
     chunk = 400
     for s in range(0, len(hs), chunk):
         meta, res, logs = fam.execute(hs[s:s + chunk], tag="q%d" % s)
